@@ -963,8 +963,12 @@ C05_PAD = dict(
     vars={"max_sizes": "(Z * Z)", "result": "list list list A", "i": "Z", "array": "list list A"},
     prims=[("np.array(__a.shape)", "shape2z {a}", "(Z * Z)", {"a": "list list A"}),
            ("np.max(__l, axis=0)", "!np_max_axis0 {l}", "(Z * Z)", {"l": "list (Z * Z)"}),
-           # pad_value * ones(shape): the constant array (x * 1.0 = x for every float, NaN included); dtype of the first array
-           ("__v * np.ones((len(__l), *__m), dtype=__l[0].dtype)", "np_full3 {v} (length {l}) {m}", "list list list A",
+           # pad_value * ones(shape): the constant array (x * 1.0 = x for every float, NaN included).  Its dtype is the common
+           # result type of ALL the arrays and the pad value (repair fx2; before: the dtype of the FIRST array, which rounded the
+           # other plates): every element type A of the model is held exactly, whichever plate stands first - pad_dtype in
+           # Model/Dbal.v is the dtype-level reading of this expression.  The exact text is part of the pattern: an allocation
+           # with any other dtype expression is refused (fail closed)
+           ("__v * np.ones((len(__l), *__m), dtype=np.result_type(*__l, __v))", "np_full3 {v} (length {l}) {m}", "list list list A",
             {"v": "A", "m": "(Z * Z)"})],
     assign_effects=[("result[__i, :__a.shape[0], :__a.shape[1]] = __a", "result'", "set_block {state} {i} {a}")],
 )
